@@ -179,3 +179,49 @@ func rangeAttempts(c *common.Ctx) error {
 	}
 	return nil
 }
+
+// sameOwnerRace: all threads of one process share one POSIX lock owner, so an owner's first two lock requests can arrive
+// at the same time. Both are the same owner's: afterwards the owner can upgrade and release what it took, and nothing is
+// left behind for others.
+func sameOwnerRace(c *common.Ctx) error {
+	dir, err := os.MkdirTemp(c.OutDir, "c12s-")
+	if err != nil {
+		return err
+	}
+	defer os.RemoveAll(dir)
+	n, err := lfs.Open(dir, true)
+	if err != nil {
+		return err
+	}
+	defer n.Close()
+	db, f, err := n.Store.CreateDB("db")
+	if err != nil {
+		return err
+	}
+	_ = f.Close()
+	ctx := context.Background()
+	iters := c.Pick(3000, 20000)
+	pend, resv := []litefs.LockType{litefs.LockTypePending}, []litefs.LockType{litefs.LockTypeReserved}
+	both := []litefs.LockType{litefs.LockTypePending, litefs.LockTypeReserved}
+	for i := 0; i < iters; i++ {
+		owner := uint64(1_000_000 + i)
+		start := make(chan struct{})
+		done := make(chan bool, 2)
+		go func() { <-start; done <- db.TryRLocks(ctx, owner, pend) }()
+		go func() { <-start; done <- db.TryRLocks(ctx, owner, resv) }()
+		close(start)
+		a, b := <-done, <-done
+		up, _ := db.TryLocks(ctx, owner, pend) // the only holder upgrades its own shared lock
+		_ = db.Unlock(ctx, owner, both)
+		p1, _ := db.TryLocks(ctx, 3, both)
+		_ = db.Unlock(ctx, 3, both)
+		if !a || !b || !up || !p1 {
+			c.Evaluations++
+			c.Violate("C12:same-owner-race", fmt.Sprintf("iteration %d: a new owner's first two shared requests (PENDING, RESERVED) ran concurrently: granted %v/%v; the owner's own upgrade of PENDING: %v; after the owner released both, another owner's exclusive request: %v (want all true)", i, a, b, up, p1), map[string]any{"kind": "same-owner-race", "iteration": i})
+			return nil
+		}
+	}
+	c.Evaluations++
+	c.Distinct("same-owner-race")
+	return nil
+}
